@@ -160,14 +160,17 @@ func (c *Ctx) ruleXfer() {
 					if k, isC := constIntOf(init); !ok || !isC || k != 0 || step != 1 {
 						problems = append(problems, "the loop counter does not run 0, 1, 2, ...")
 					}
-					// bound: i < src.ulen()
+					// bound: i < src.ulen()  (evaluated in the header or hoisted before the loop:
+					// the source is never written, so both are the same value)
 					okB := false
 					if iff, ok := hdr.Instrs[len(hdr.Instrs)-1].(*ssa.If); ok {
 						if bo, ok := iff.Cond.(*ssa.BinOp); ok && bo.Op == token.LSS && bo.X == ssa.Value(phi) {
 							if bc, ok := bo.Y.(*ssa.Call); ok {
 								if cal := c.p.callee(&bc.Call); cal != nil && relName(cal) == "stack.ulen" {
 									if ld, ok := bc.Call.Args[0].(*ssa.UnOp); ok && ld.X == ssa.Value(fn.Params[0]) {
-										okB = true
+										if fa.loopOf[hdr][bc.Block()] || bc.Block().Dominates(hdr) {
+											okB = true
+										}
 									}
 								}
 							}
